@@ -445,9 +445,14 @@ impl FromStr for PublicKey {
     type Err = error::Format;
 
     fn from_str(s: &str) -> Result<Self, Self::Err> {
-        let (_, public_key) = biscuit_parser::parser::public_key(s)
+        let (rest, public_key) = biscuit_parser::parser::public_key(s)
             .finish()
             .map_err(|e| error::Format::InvalidKey(e.to_string()))?;
+        if !rest.is_empty() {
+            return Err(error::Format::InvalidKey(format!(
+                "unexpected trailing characters after the public key: {rest}"
+            )));
+        }
         PublicKey::from_bytes(
             &public_key.key,
             match public_key.algorithm {
